@@ -524,3 +524,50 @@ mod private {
         }
     }
 }
+
+/// Verification hooks (`--cfg jxl_oxide_verif`).
+#[cfg(jxl_oxide_verif)]
+pub mod verif {
+    use super::*;
+
+    /// An `ImageStream` over the given channel grids, as `from_render` would set it up
+    /// (`width`/`height` are the oriented output dimensions), without spot colours.
+    pub fn new_image_stream<'r>(
+        orientation: u32,
+        width: u32,
+        height: u32,
+        grids: Vec<&'r ImageBuffer>,
+        start_offset_xy: Vec<(i32, i32)>,
+        bit_depth: Vec<BitDepth>,
+    ) -> ImageStream<'r> {
+        ImageStream {
+            orientation,
+            width,
+            height,
+            grids,
+            start_offset_xy,
+            bit_depth,
+            spot_colors: Vec::new(),
+            y: 0,
+            x: 0,
+            c: 0,
+        }
+    }
+
+    pub fn sample_from_f32<S: FrameBufferSample>(val: f32) -> S {
+        let mut out = S::default();
+        out.copy_from_f32(val);
+        out
+    }
+
+    pub fn sample_from_grid<S: FrameBufferSample>(
+        grid: &ImageBuffer,
+        x: usize,
+        y: usize,
+        bit_depth: BitDepth,
+    ) -> S {
+        let mut out = S::default();
+        out.copy_from_grid(grid, x, y, bit_depth);
+        out
+    }
+}
